@@ -1,6 +1,7 @@
 (* Correspondence glue: the comparisons evaluated by vm_compute on the cases the
    harness wrote (what the real goa code did on the same designs / calls). *)
 From DSL Require Import Model Generated_contexts.
+From Coq Require Import NArith.
 
 Definition err_eq_dec (a b : err) : {a = b} + {a <> b}.
 Proof. decide equality; apply Nat.eq_dec. Defined.
@@ -13,7 +14,8 @@ Definition is_nil {A} (l : list A) : bool := match l with [] => true | _ => fals
 (* near-valid stream: index, design, covered (the single mutation is of a kind the
    model covers, or there is none), accepted by eval.RunDSL, the errors goa reported
    (modelled kinds only, names interned) *)
-Definition ref_case := (nat * design * bool * bool * list err)%type.
+(* case indexes are binary numbers: a mismatching index is printed, and a unary 50000 is too deep *)
+Definition ref_case := (N * design * bool * bool * list err)%type.
 
 Definition ref_ok (c : ref_case) : bool :=
   match c with
@@ -23,7 +25,7 @@ Definition ref_ok (c : ref_case) : bool :=
       else (if accepted then is_nil me else true)     (* whatever the model rejects, goa rejects *)
   end.
 
-Definition ref_mismatches (cs : list ref_case) : list nat :=
+Definition ref_mismatches (cs : list ref_case) : list N :=
   flat_map (fun c => if ref_ok c then [] else match c with (i, _, _, _, _) => [i] end) cs.
 
 (* grid: one DSL function called with benign arguments in one context *)
@@ -36,7 +38,7 @@ Inductive gobs :=
 
 Definition has_incompat (o : gobs) : bool := match o with GIncompat | GBoth => true | _ => false end.
 
-Definition grid_case := (nat * nat * ctx * gobs)%type.   (* index, position of the function in [table], context, observation *)
+Definition grid_case := (N * nat * ctx * gobs)%type.   (* index, position of the function in [table], context, observation *)
 
 Definition grid_ok (c : grid_case) : bool :=
   match c with
@@ -62,11 +64,11 @@ Definition grid_ok (c : grid_case) : bool :=
       end
   end.
 
-Definition grid_mismatches (cs : list grid_case) : list nat :=
+Definition grid_mismatches (cs : list grid_case) : list N :=
   flat_map (fun c => if grid_ok c then [] else match c with (i, _, _, _) => [i] end) cs.
 
 (* the dynamic type of eval.Current() (and the interfaces it implements) per context *)
-Definition ctx_case := (nat * ctx * list etype * option dkind)%type.
+Definition ctx_case := (N * ctx * list etype * option dkind)%type.
 
 Definition dkind_eq_dec (a b : dkind) : {a = b} + {a <> b}.
 Proof. decide equality. Defined.
@@ -82,5 +84,5 @@ Definition ctx_ok (c : ctx_case) : bool :=
       end
   end.
 
-Definition ctx_mismatches (cs : list ctx_case) : list nat :=
+Definition ctx_mismatches (cs : list ctx_case) : list N :=
   flat_map (fun c => if ctx_ok c then [] else match c with (i, _, _, _) => [i] end) cs.
